@@ -102,7 +102,7 @@ func c01Profiles(quick bool) []*bworld.Profile {
 
 func c01(r *ev.Result, tier string) {
 	r.Rule = brokerRule
-	budget := 120 * time.Second /* a cap for a loaded machine; idle runs need 10-20 s */
+	budget := 300 * time.Second /* a cap for a loaded machine; an idle run needs about 60 s */
 	if !isQuick(tier) {
 		budget = 12 * time.Minute
 	}
